@@ -572,7 +572,7 @@ func (r *Runner) Init() bool {
 	}
 	if r.wire() {
 		r.tr.Case(r.caseID)
-		r.tr.Op(OpInit, int64(r.cfg.Mode), r.cfg.MaxSz, int64(r.cfg.Cap), b2i(r.fix.Drop), b2i(r.fix.RO), b2i(r.fix.Guard), b2i(r.fix.TSync))
+		r.tr.Op(OpInit, int64(r.cfg.Mode), r.cfg.MaxSz, int64(r.cfg.Cap), b2i(r.fix.Drop), b2i(r.fix.RO), b2i(r.fix.Guard), 1)
 		var l vw.L
 		l.Add(0)
 		addMuts(&l, c.muts)
@@ -1081,7 +1081,7 @@ func (p plState) apply(m Mut, after snapshot) {
 
 // worst returns the power-loss state and how it differs from the volatile one:
 // "" (equal), "unsynced" (only bytes beyond a synced prefix are missing), "undirsynced" (directory entries differ),
-// "pendingtrunc" (a file is longer than, or not a prefix of, its volatile content: an un-synced truncation).
+// "unsynced-ftruncate" (a file is longer than, or not a prefix of, its volatile content: an un-synced truncation).
 func (p plState) worst(vol snapshot) (snapshot, string) {
 	s := snapshot{}
 	kind := ""
@@ -1108,11 +1108,11 @@ func (p plState) worst(vol snapshot) (snapshot, string) {
 				kind = "unsynced"
 			}
 		default:
-			kind = "pendingtrunc"
+			kind = "unsynced-ftruncate"
 		}
 	}
 	for name := range p.durNames {
-		if _, ok := vol[name]; !ok && kind != "pendingtrunc" {
+		if _, ok := vol[name]; !ok && kind != "unsynced-ftruncate" {
 			kind = "undirsynced"
 		}
 	}
@@ -1143,7 +1143,8 @@ func (r *Runner) markDurable() {
 //   - missing un-synced bytes ("every prefix of the last unsynced write") and missing/extra directory entries are
 //     reported like any crash state (classes -unsynced, -undirsynced): they can only arise if an fsync or a
 //     directory sync was dropped;
-//   - a pending truncation is outside C06's crash quantifier: judged in observation mode (statistics only).
+//   - an un-synced ftruncate (finding F25, repaired in 09d27e0 by an fsync after the ftruncate) is reported the same
+//     way (class -unsynced-ftruncate): removed records reappear, possibly in the middle of the log.
 func (r *Runner) powerLossStates(op int, c *collector, b bounds) {
 	r.plInit()
 	cur := plState{r.durable, r.durNames}.clone()
@@ -1160,9 +1161,7 @@ func (r *Runner) powerLossStates(op int, c *collector, b bounds) {
 			continue
 		}
 		r.clsTag = "-" + kind
-		r.observe = kind == "pendingtrunc" || kind0 == "pendingtrunc"
 		r.evalCrash(op, c, j, -1, s, b, false)
-		r.observe = false
 		r.clsTag = ""
 		vw.Stat("powerloss.states."+kind, 1)
 	}
